@@ -15,6 +15,9 @@ Inductive op :=
 | ORead (n : name) (at_ : N) (done : bool) (val : N)               (* calling the handle obtained earlier (done = we had one) *)
 | OLookup (n : name) (at_ : N) (ans : option (N * N)) (ok called : bool) (docs : list (list oent))
 | OUpdater (n : name) (at_ : N) (ans : option (N * N)) (ok called : bool) (val : N) (docs : list (list oent))
+| OApply (n : name) (at_ : N) (ans : option (N * N)) (ok called : bool) (val : N) (docs : list (list oent))
+    (* ParseFields + Fields.Apply of a struct with one []byte field tagged n: LookupSecret(n) (which hands out the
+       handle record, fetching an unknown name first) and a read of the value at that instant; val = the field *)
 | OPollBegin (at_ : N) (gated : bool) (reqs : list (name * N))     (* Refresh starts; gated = it issued requests (held until OPollEnd) *)
 | OPollEnd (pt : ptab) (ok : bool) (docs : list (list oent))       (* the requests are answered, Refresh returns *)
 | ORestart (clean : bool) (names : list name) (allow_lookup : bool) (age : Z) (at_ : N)
@@ -66,6 +69,16 @@ Definition step_op (epoch : Z) (h : hstate) (o : op) : option hstate :=
       match snd (read (st h2) n (sec epoch at_)) with
       | Some v => let h3 := step h2 (ERead n (sec epoch at_)) in
                   if (v =? val)%N && docs_beq docs (wrote h h3) then Some h3 else None
+      | None => None
+      end
+    else if docs_beq docs (wrote h h1) then Some h1 else None
+  | OApply n at_ ans ok called val docs =>
+    let '(h1, ok', called') := do_lookup epoch h n at_ ans in
+    if negb (Bool.eqb ok ok' && Bool.eqb called called') then None
+    else if ok' then
+      match snd (read (st h1) n (sec epoch at_)) with
+      | Some v => let h2 := step h1 (ERead n (sec epoch at_)) in
+                  if (v =? val)%N && docs_beq docs (wrote h h2) then Some h2 else None
       | None => None
       end
     else if docs_beq docs (wrote h h1) then Some h1 else None
